@@ -26,13 +26,14 @@ func (r Result) String() string { return [...]string{"unsat", "sat", "unknown"}[
 
 // Stats are global counters shared by all solver processes (atomic).
 type Stats struct {
-	Queries  int64
-	Sat      int64
-	Unsat    int64
-	Unknown  int64
-	NanosSum int64
-	Diffed   int64
-	DiffBad  int64
+	Queries      int64
+	Sat          int64
+	Unsat        int64
+	Unknown      int64
+	NanosSum     int64
+	Diffed       int64
+	DiffBad      int64
+	HardTimeouts int64 // queries ended by the wall-clock watchdog (solver process killed)
 }
 
 var Global Stats
@@ -191,7 +192,31 @@ func (s *Solver) CheckOpt(c *Ctx, asserts []*Expr, want []*Expr, abstractFP bool
 	}
 	sb.WriteString("(check-sat)\n")
 	s.send(sb.String())
-	line, err := s.readSexp()
+	// the solver's own soft time limit is not always honoured (some tactics do not poll it, and
+	// memory keeps growing meanwhile): a wall-clock watchdog kills the process, the verdict is unknown
+	type answer struct {
+		line string
+		err  error
+	}
+	ch := make(chan answer, 1)
+	go func() {
+		l, e := s.readSexp()
+		ch <- answer{l, e}
+	}()
+	hard := s.Timeout + 20*time.Second
+	var line string
+	var err error
+	select {
+	case a := <-ch:
+		line, err = a.line, a.err
+	case <-time.After(hard):
+		s.dead = true
+		s.cmd.Process.Kill()
+		<-ch
+		atomic.AddInt64(&Global.Unknown, 1)
+		atomic.AddInt64(&Global.HardTimeouts, 1)
+		return Unknown, nil, "solver killed after the hard time limit"
+	}
 	if err != nil {
 		s.dead = true
 		atomic.AddInt64(&Global.Unknown, 1)
